@@ -42,7 +42,10 @@ LEVELS = ["1.1", "1.5"]
 @functools.lru_cache(maxsize=None)
 def base(level):
     spec = common.spec_from(
-        {"level": level, "images": [{"lines": 4, "pixels": 3}, {"lines": 3, "pixels": 2}], "vseed": 90 + LEVELS.index(level),
+        {"level": level,
+         "images": [dict({"lines": 4, "pixels": 3}, **({"pol": "HV", "scan": "F1"} if level == "1.1" else {})),
+                    dict({"lines": 3, "pixels": 2}, **({"pol": "HV", "scan": "F2"} if level == "1.1" else {}))],
+         "vseed": 90 + LEVELS.index(level),
          "leader": {"map_projection": level != "1.1"}}
     )
     files, info = product.build_product(spec)
